@@ -207,31 +207,29 @@ def wantsCollector (cfg : Cfg) (hasData : Bool) (size : Nat) : Bool :=
 
 /-! ## environment: hashing, Arrow IPC, codecs, object store — assumed laws are fields -/
 
-abbrev Bytes := List UInt8
-
-structure Env where
-  sha : Bytes → Str
-  ser : Nat → List WBatch → Bytes
-  parse : Bytes → Parsed
+/-- `B` = byte strings (abstract: the model never looks inside one) -/
+structure Env (B : Type) where
+  sha : B → Str
+  ser : Nat → List WBatch → B
+  parse : B → Parsed
   parse_ser : ∀ s bs, parse (ser s bs) = .stream s bs .clean
-  comp : Nat → Bytes → Bytes
-  decomp : Nat → Bytes → Option Bytes
+  comp : Nat → B → B
+  decomp : Nat → B → Option B
   decomp_comp : ∀ c x, decomp c (comp c x) = some x
 
-structure Obj where
-  body : Bytes
+structure Obj (B : Type) where
+  body : B
   enc : Option Nat                   -- Content-Encoding naming a known codec
-deriving Repr, DecidableEq
 
-structure Storage where
+structure Storage (B : Type) where
   S : Type
-  put : S → Obj → S × Str            -- `ExternalStorage.upload` → URL
-  get : S → Str → Option Obj
+  put : S → Obj B → S × Str          -- `ExternalStorage.upload` → URL
+  get : S → Str → Option (Obj B)
   get_put : ∀ s o, get (put s o).1 (put s o).2 = some o
   put_keeps : ∀ s o u x, get s u = some x → get (put s o).1 u = some x
 
 /-- `fetch_url`: GET, then decode when Content-Encoding names a codec -/
-def view (env : Env) : Option Obj → Fetched
+def view {B : Type} (env : Env B) : Option (Obj B) → Fetched
   | none => .failed
   | some o =>
     match o.enc with
@@ -251,10 +249,10 @@ deriving Repr, DecidableEq
 def Ptr.batch (p : Ptr) : WBatch := ⟨0, some { location := some p.url, sha := p.sha }, 0⟩
 
 /-- serialise, digest (before compression), compress, upload, point -/
-def externalize (env : Env) (st : Storage) (cfg : Cfg) (s : st.S) (schema : Nat) (bs : List WBatch) : st.S × Ptr :=
+def externalize {B : Type} (env : Env B) (st : Storage B) (cfg : Cfg) (s : st.S) (schema : Nat) (bs : List WBatch) : st.S × Ptr :=
   let raw := env.ser schema bs
   let h := env.sha raw
-  let o : Obj := match cfg.compression with
+  let o : Obj B := match cfg.compression with
     | none => ⟨raw, none⟩
     | some c => ⟨env.comp c raw, some c⟩
   let r := st.put s o
@@ -280,7 +278,7 @@ deriving Repr, DecidableEq
 abbrev Resolver := Ptr → Except Reject (List Log × Batch)
 
 /-- the resolver of a client reading store state `s` (every attempt sees the same object) -/
-def resolverAt (env : Env) (st : Storage) (s : st.S) (maxRetries : Int) : Resolver := fun p =>
+def resolverAt {B : Type} (env : Env B) (st : Storage B) (s : st.S) (maxRetries : Int) : Resolver := fun p =>
   match resolve p.schema p.sha maxRetries (fun _ => view env (st.get s p.url)) with
   | .ok (logs, d) => .ok (logs, decodeData d)
   | .error e => .error e
@@ -291,7 +289,7 @@ def dataOf : List Item → Option Batch
   | .data b :: _ => some b
   | _ :: r => dataOf r
 
-def flushCollector (env : Env) (st : Storage) (cfg : Cfg) (size : Batch → Nat) (schema : Nat) (s : st.S)
+def flushCollector {B : Type} (env : Env B) (st : Storage B) (cfg : Cfg) (size : Batch → Nat) (schema : Nat) (s : st.S)
     (items : List Item) : st.S × List WItem :=
   match dataOf items with
   | none => (s, items.map .plain)
@@ -308,14 +306,14 @@ inductive StepOutX where
 deriving Repr
 
 /-- one `process()` call on the server: `processStep`, then the flush (an error discards the collector: inline) -/
-def serveStep (env : Env) (st : Storage) (cfg : Cfg) (size : Batch → Nat) (schema : Nat) (exchange : Bool)
+def serveStep {B : Type} (env : Env B) (st : Storage B) (cfg : Cfg) (size : Batch → Nat) (schema : Nat) (exchange : Bool)
     (s : st.S) (step : Step) : st.S × StepOutX :=
   match (if exchange then processExchangeStep step else processStep step) with
   | .cont items => let r := flushCollector env st cfg size schema s items; (r.1, .cont r.2)
   | .done items => let r := flushCollector env st cfg size schema s items; (r.1, .done r.2)
   | .fail items => (s, .fail (items.map .plain))
 
-def serveAll (env : Env) (st : Storage) (cfg : Cfg) (size : Batch → Nat) (schema : Nat) (exchange : Bool) :
+def serveAll {B : Type} (env : Env B) (st : Storage B) (cfg : Cfg) (size : Batch → Nat) (schema : Nat) (exchange : Bool) :
     st.S → List Step → st.S × List StepOutX
   | s, [] => (s, [])
   | s, step :: r =>
@@ -390,7 +388,7 @@ end Pipe
 /-! ## single batches: unary result, stream header, client-uploaded request -/
 
 /-- `maybe_externalize_batch` on one batch of `rows` rows and buffer size `size` -/
-def externalizeBatch (env : Env) (st : Storage) (cfg : Cfg) (s : st.S) (schema : Nat) (b : WBatch) (size : Nat) :
+def externalizeBatch {B : Type} (env : Env B) (st : Storage B) (cfg : Cfg) (s : st.S) (schema : Nat) (b : WBatch) (size : Nat) :
     st.S × Option Ptr :=
   if wantsBatch cfg b.rows size then
     let r := externalize env st cfg s schema [b]
@@ -398,9 +396,53 @@ def externalizeBatch (env : Env) (st : Storage) (cfg : Cfg) (s : st.S) (schema :
   else (s, none)
 
 /-- `_build_pointer_request_body` (as repaired): the client PUT the request body itself; the pointer carries its digest -/
-def clientUpload (env : Env) (st : Storage) (s : st.S) (schema : Nat) (req : WBatch) : st.S × Ptr :=
+def clientUpload {B : Type} (env : Env B) (st : Storage B) (s : st.S) (schema : Nat) (req : WBatch) : st.S × Ptr :=
   let raw := env.ser schema [req]
   let r := st.put s ⟨raw, none⟩
   (r.1, ⟨r.2, if Gen.C30.clientPointerHasSha then some (env.sha raw) else none, schema⟩)
+
+/-! ## a concrete environment (non-vacuity of the `Env`/`Storage` laws; also run by the native driver) -/
+namespace Toy
+
+inductive TB where
+  | raw (schema : Nat) (bs : List WBatch)      -- a well-formed IPC stream
+  | cut (schema : Nat) (bs : List WBatch)      -- … truncated after `bs`
+  | packed (c : Nat) (inner : TB)              -- compressed with codec `c`
+  | junk (n : Nat)
+deriving Repr
+
+def env : Env TB where
+  sha x := (toString (repr x)).toList
+  ser := .raw
+  parse
+    | .raw s bs => .stream s bs .clean
+    | .cut s bs => .stream s bs .invalid
+    | _ => .bad
+  parse_ser _ _ := rfl
+  comp := .packed
+  decomp c
+    | .packed c' i => if c = c' then some i else none
+    | _ => none
+  decomp_comp c x := by simp
+
+/-- URLs are "u", "uu", "uuu", … — the object's 1-based position in an append-only list -/
+def url (n : Nat) : Str := List.replicate n 'u'
+
+def storage : Storage TB where
+  S := List (Obj TB)
+  put s o := (s ++ [o], url (s.length + 1))
+  get s u := if u.length = 0 then none else s[u.length - 1]?
+  get_put s o := by simp [url]
+  put_keeps s o u x h := by
+    by_cases hu : u.length = 0
+    · simp [hu] at h
+    · simp only [hu, if_false] at h ⊢
+      have hlt : u.length - 1 < s.length := by
+        rcases Nat.lt_or_ge (u.length - 1) s.length with h' | h'
+        · exact h'
+        · rw [List.getElem?_eq_none h'] at h; cases h
+      rw [List.getElem?_append_left hlt]; exact h
+
+end Toy
 
 end VgiVerif.C30
